@@ -35,7 +35,7 @@ def be_value(E, st, zs):
         k = n.as_long()
         t = z3.IntVal(0)
         for i in range(k):
-            t = t * 256 + ops.byte_int(E, st, zs[i])
+            t = t * 256 + ops.byte_int(E, st, ops.seq_nth(E, st, zs, i))
         return t
     t = BE(zs)
     st.fact(t >= 0)
@@ -89,7 +89,7 @@ def le_value(E, st, zs):
         k = n.as_long()
         t = z3.IntVal(0)
         for i in range(k - 1, -1, -1):
-            t = t * 256 + ops.byte_int(E, st, zs[i])
+            t = t * 256 + ops.byte_int(E, st, ops.seq_nth(E, st, zs, i))
         return t
     t = LE(zs)
     st.fact(t >= 0)
@@ -1290,7 +1290,7 @@ def pacc_joined(E, st, first, rest):
         elif z3.is_int_value(lf) and lf.as_long() <= 16:
             bf = z3.IntVal(0)
             for i in range(lf.as_long()):
-                bf = bf * 256 + ops.byte_int(E, st, zbytes(first)[i])
+                bf = bf * 256 + ops.byte_int(E, st, ops.seq_nth(E, st, zbytes(first), i))
         else:
             bf = be_value(E, st, zbytes(first))
         st.fact(be_value(E, st, j) == bf * p + be_value(E, st, zbytes(rest)))
@@ -1767,7 +1767,7 @@ def x_struct_unpack(E, st, a, k):
             idxs = range(off, off + size) if order == 'big' else range(off + size - 1, off - 1, -1)
             t = z3.IntVal(0)
             for i in idxs:
-                t = t * 256 + ops.byte_int(E, ok, zs[i])
+                t = t * 256 + ops.byte_int(E, ok, ops.seq_nth(E, ok, zs, i))
             vals.append(mk_int(t))
             off += size
         outs.append(('val', ok, tuple(vals)))
